@@ -1286,7 +1286,9 @@ class KafkaClient(object):
                 if leader is None:
                     raise CoordinatorNotAvailable("Coordinator not available for group: %s" % (consumer_group))
 
-            payloads_by_broker[leader].append(payload)
+            # (by node id: the same broker may be cached under two addresses,
+            # from metadata responses received before and after it moved)
+            payloads_by_broker[leader.node_id].append(payload)
             original_keys.append((payload.topic, payload.partition))
 
         # Accumulate the responses in a dictionary
@@ -1310,8 +1312,8 @@ class KafkaClient(object):
         # and the payloads that go along with them
         payloadsList = []
         # For each broker, send the list of request payloads,
-        for broker_meta, payloads in payloads_by_broker.items():
-            broker = self._get_brokerclient(broker_meta.node_id)
+        for node_id, payloads in payloads_by_broker.items():
+            broker = self._get_brokerclient(node_id)
             requestId = self._next_id()
             request = encoder_fn(
                 client_id=self._clientIdBytes,
